@@ -1,5 +1,5 @@
 (** Lemmas about Model/SockCfg.v (C17). *)
-From Coq Require Import List NArith Bool Lia.
+From Coq Require Import List NArith Bool Lia Permutation.
 From Scion Require Import Lib.Check Model.SockCfg.
 Import ListNotations.
 Import SockCfg.
@@ -68,4 +68,63 @@ Proof.
     destruct (model_chain c reuse dr ds t) as [mt|]; [|discriminate].
     destruct (kind_of (fst l)) as [k|]; [|discriminate].
     inversion H; subst. cbn [forallb]. rewrite sock_ok_reports, (IH mt eq_refl). reflexivity.
+Qed.
+
+(** ------------------------------------------------------------------
+    Whole configurations: lists of links, in any order *)
+
+(** what one configured link contributes, whatever else is configured *)
+Definition link_obs (c : router_config) (reuse : bool) (l : N * N) (o : obs) : Prop :=
+  exists k, kind_of (fst l) = Some k /\
+            o = obs_of (open_cfg c k (origin_of (snd l)) reuse).
+
+Lemma model_links_pointwise c reuse links m :
+  model_links c reuse links = Some m -> Forall2 (link_obs c reuse) links m.
+Proof.
+  revert m. induction links as [|l t IH]; cbn [model_links fold_right]; intros m H.
+  - inversion H. constructor.
+  - fold (model_links c reuse t) in H.
+    destruct (model_links c reuse t) as [mt|]; [|discriminate].
+    destruct (kind_of (fst l)) as [k|] eqn:K; [|discriminate].
+    inversion H; subst. constructor; [now exists k | now apply IH].
+Qed.
+
+Lemma link_obs_value c reuse l o :
+  link_obs c reuse l o ->
+  (o = Some (rc_receive c, rc_send c) /\ ~ (kind_of (fst l) = Some Sibling /\ reuse = false)) \/
+  (o = None /\ kind_of (fst l) = Some Sibling /\ reuse = false).
+Proof.
+  intros [k [K ->]]. destruct (open_cfg c k (origin_of (snd l)) reuse) as [cc|] eqn:E.
+  - left. destruct (open_cfg_sizes _ _ _ _ _ E) as [Hr Hs]. cbn [obs_of]. rewrite Hr, Hs. split; [reflexivity|].
+    intros [K' R]. rewrite K in K'. inversion K'; subst.
+    assert (X : open_cfg c Sibling (origin_of (snd l)) false = None) by (apply open_cfg_some; auto).
+    congruence.
+  - right. apply open_cfg_some in E as [-> ->]. auto.
+Qed.
+
+Lemma model_links_total c reuse links :
+  Forall (fun l => kind_of (fst l) <> None) links -> exists m, model_links c reuse links = Some m.
+Proof.
+  induction 1 as [|l t Hl Ht IH]; cbn [model_links fold_right]; [now exists []|].
+  fold (model_links c reuse t). destruct IH as [mt ->].
+  destruct (kind_of (fst l)) as [k|]; [eexists; reflexivity|contradiction].
+Qed.
+
+Lemma model_links_perm c reuse links links' m :
+  Permutation.Permutation links links' -> model_links c reuse links = Some m ->
+  exists m', model_links c reuse links' = Some m' /\ Permutation.Permutation m m'.
+Proof.
+  intros HP. revert m. induction HP as [|x l l' HP IH|x y l|l l' l'' H1 IH1 H2 IH2]; intros m H.
+  - exists m. split; [assumption|apply Permutation_refl].
+  - cbn [model_links fold_right] in *. fold (model_links c reuse l) in H. fold (model_links c reuse l').
+    destruct (model_links c reuse l) as [mt|]; [|discriminate].
+    destruct (IH mt eq_refl) as [mt' [-> P]].
+    destruct (kind_of (fst x)); [|discriminate]. inversion H; subst.
+    eexists; split; [reflexivity|now apply Permutation.perm_skip].
+  - cbn [model_links fold_right] in *. fold (model_links c reuse l) in *.
+    destruct (model_links c reuse l) as [mt|]; [|discriminate].
+    destruct (kind_of (fst x)), (kind_of (fst y)); try discriminate. inversion H; subst.
+    eexists; split; [reflexivity|apply Permutation.perm_swap].
+  - destruct (IH1 m H) as [m1 [E1 P1]]. destruct (IH2 m1 E1) as [m2 [E2 P2]].
+    exists m2. split; [assumption|eapply Permutation.perm_trans; eassumption].
 Qed.
